@@ -1842,6 +1842,16 @@ Octagonal_Shape<T>::max_min(const Linear_Expression& expr,
       return true;
     }
   }
+  else if (expr.all_homogeneous_terms_are_zero()) {
+    // A constant expression is bounded on the universe octagon too.
+    ext_n = expr.inhomogeneous_term();
+    ext_d = 1;
+    included = true;
+    Linear_Expression origin;
+    origin.set_space_dimension(space_dim);
+    g = point(origin);
+    return true;
+  }
   // The `expr' is unbounded.
   return false;
 }
